@@ -429,7 +429,7 @@ def cli_argv_ob(prog, res, oid, mod, tool, in_param, out_param, in_mode, out_mod
         seen['n'], f'a call of {tool} reached from cli_entry')
 
 
-def cli_argv_io_ob(prog, res, oid, mod, command=None, out_flags=(), label=None):
+def cli_argv_io_ob(prog, res, oid, mod, command=None, out_flags=(), label=None, ctor_expect=()):
     """mideu / paramconv through their real command line: cli_entry is interpreted with the namespace their own argparse
     definitions deliver and the reader / writer classes as recording summaries.  --no1014blocking given <=> every reader and
     writer is built unblocked; the input named on the command line is the file opened for reading; an output name given with
@@ -481,13 +481,35 @@ def cli_argv_io_ob(prog, res, oid, mod, command=None, out_flags=(), label=None):
                 elif bool(got.value) is given:
                     fails.append(definite(f'--no1014blocking is {"given" if given else "not given"} on the command line of {what} but '
                                           f'{n} is built with blocked={got.value!r}', firm=True))
+        positional = [r for f, r in info.items() if isinstance(r, dict) and not f.startswith('-')]
+        for what_, cls_name, param, kind in ctor_expect:
+            rec = positional[what_] if isinstance(what_, int) and what_ < len(positional) else info.get(what_) if isinstance(what_, str) else None
+            shown = what_ if isinstance(what_, str) else f'positional argument {what_ + 1}'
+            if rec is None:
+                fails.append(soft(f'the parser defines no {shown}'))
+                continue
+            for n, o, b in ctors:
+                if n != cls_name:
+                    continue
+                got = b.get(param)
+                if got is None and isinstance(b.get('**'), DictV):
+                    got = b['**'].items.get(param)
+                got = it.resolve(got) if got is not None else None
+                if kind == 'bool':
+                    if got is not None and not isinstance(got, ConstV):
+                        fails.append(soft(f'{n} is built with {param}={got!r}'))
+                    elif bool(got.value if got is not None else False) is not bool(rec['given']):
+                        fails.append(definite(f'{shown} is {"given" if rec["given"] else "not given"} on the command line of {what} but {n} '
+                                              f'is built with {param}={got.value if got is not None else None!r}', firm=True))
+                elif rec['given'] and got is not it.resolve(rec['value']):
+                    fails.append(definite(f'{shown} is given on the command line of {what} but {n} is built with {param}={got!r}, not its '
+                                          f'value', firm=True))
         opens = list(p.evs('open'))
 
         def opened(value, modes):
             value = it.resolve(value)
             return any(e.data['args'] and it.resolve(e.data['args'][0]) is value and (e.data['file'].mode or 'r')[0] in modes
                        for e in opens)
-        positional = [r for f, r in info.items() if isinstance(r, dict) and not f.startswith('-')]
         if positional and not opened(positional[0]['value'], 'r'):
             fails.append(definite(f'the input file named on the command line of {what} is not the file opened for reading', firm=True))
         for fl in out_flags:
@@ -502,7 +524,7 @@ def cli_argv_io_ob(prog, res, oid, mod, command=None, out_flags=(), label=None):
     return require_instances(
         runs.judge(oid, f'{what}: --no1014blocking, the input name and the output name given on the command line, parsed by the '
                         f'tool\'s own argparse definitions, reach the readers, writers and open() calls',
-                   func_where(efi), 'cli_run(**vars(_get_cli_parser().parse_args(*args)))', chk,
+                   func_where(efi), 'cli_run(**vars(<parser>.parse_args()))', chk,
                    rule=f'{oid}.argv.{what.replace(" ", ".").replace("cli.", "")}', unknown_ok=benign_unknown),
         seen['n'], f'a reader or writer built on a path from {mod}.cli_entry')
 
